@@ -113,6 +113,16 @@ func runC11(args []string) {
 		_ = os.WriteFile(filepath.Join(dir, "kessoku.go"), []byte(src), 0o644)
 		progs = append(progs, &c11Prog{Name: "universe/" + d.Spec(), Dir: dir, File: "kessoku.go"})
 	}
+	// packages spread over several files whose files import different packages with the same name
+	// (the allocator must rename one of them; which one must not depend on file visiting order)
+	for _, mp := range multiFilePrograms() {
+		dir := filepath.Join(scratch, "internal", "kessoku", "testdata", mp.name)
+		for rel, src := range mp.files {
+			_ = os.MkdirAll(filepath.Dir(filepath.Join(dir, rel)), 0o755)
+			_ = os.WriteFile(filepath.Join(dir, rel), []byte(src), 0o644)
+		}
+		progs = append(progs, &c11Prog{Name: "multifile/" + mp.name, Dir: dir, File: "kessoku.go"})
+	}
 	stub := filepath.Join(scratch, "internal", "kessoku", "testdata", "rtstub")
 	_ = os.MkdirAll(stub, 0o755)
 	_ = os.WriteFile(filepath.Join(stub, "rt.go"), []byte("package rtstub\n\nfunc Call(pid string, args ...string) (string, error) { return pid, nil }\n\nfunc TermOf(x interface{ Term() string }) string { return x.Term() }\n"), 0o644)
@@ -505,4 +515,42 @@ func pickCorpusDecls(thorough bool) []*decl.Decl {
 		}
 	}
 	return out
+}
+
+type multiFileProg struct {
+	name  string
+	files map[string]string
+}
+
+// multiFilePrograms: user packages of 3-4 files; two (or three) files import different packages
+// that share a package name, and types of all of them reach the generated code.
+func multiFilePrograms() []multiFileProg {
+	const base = "github.com/mazrean/kessoku/internal/kessoku/testdata/"
+	mk := func(name string, pkgs []string, async bool) multiFileProg {
+		files := map[string]string{}
+		var provs, params []string
+		for i, p := range pkgs {
+			// sub-package <p>/config with type C<i>
+			files[p+"/config/config.go"] = fmt.Sprintf("package config\n\ntype C%d struct{ V int }\n", i)
+			files[fmt.Sprintf("file%d.go", i)] = fmt.Sprintf("package %s\n\nimport \"%s%s/%s/config\"\n\nfunc New%d() *config.C%d { return &config.C%d{} }\n", name, base, name, p, i, i, i)
+			w := fmt.Sprintf("kessoku.Provide(New%d)", i)
+			if async {
+				w = "kessoku.Async(" + w + ")"
+			}
+			provs = append(provs, w)
+			params = append(params, fmt.Sprintf("c%d *cfg%d.C%d", i, i, i))
+		}
+		imp := "import (\n\t\"github.com/mazrean/kessoku\"\n"
+		for i, p := range pkgs {
+			imp += fmt.Sprintf("\tcfg%d \"%s%s/%s/config\"\n", i, base, name, p)
+		}
+		imp += ")\n\n"
+		files["app.go"] = "package " + name + "\n\n" + imp + "type App struct{ N int }\n\nfunc NewApp(" + strings.Join(params, ", ") + ") *App { return &App{} }\n\nvar _ = kessoku.Provide[int]\n"
+		files["kessoku.go"] = "package " + name + "\n\nimport \"github.com/mazrean/kessoku\"\n\nvar _ = kessoku.Inject[*App](\n\t\"InitApp\",\n\t" + strings.Join(provs, ",\n\t") + ",\n\tkessoku.Provide(NewApp),\n)\n"
+		return multiFileProg{name: name, files: files}
+	}
+	return []multiFileProg{
+		mk("mfsync", []string{"storage", "cache"}, false),
+		mk("mfasync", []string{"storage", "cache", "queue"}, true),
+	}
 }
